@@ -275,4 +275,71 @@ Section Cap.
     { unfold xa_C. apply in_flat_map. exists (stm, XInUse q 0). split; [exact Hx|]. cbn [xa_G1]. rewrite Hp. left. reflexivity. }
     rewrite <- Hn. apply xa_find_unique; [rewrite map_rev; apply NoDup_rev; exact xa_C_nodup | apply in_rev; rewrite rev_involutive; exact Hc].
   Qed.
+
+  (* ---------- (b) the collected objects, item by item ---------- *)
+  Lemma xa_ents_collect : forall ip, In ip (xe_lay d) ->
+    flat_map (fun ke => xa_opt (xa_G1 ke)) (xa_ents ip) = xa_opt (xa_G1 (xe_item_num d (fst ip), XInUse (snd ip) 0)).
+  Proof.
+    intros [it q] Hip. unfold xa_ents. cbn [fst snd]. destruct it as [x | k]; cbn [flat_map xe_item_num]; [rewrite app_nil_r; reflexivity|].
+    fold ren sren. match goal with |- ?a ++ ?b = ?a => assert (E : b = []); [| rewrite E, app_nil_r; reflexivity] end.
+    apply flat_map_nil. apply Forall_forall. intros ke Hke. apply in_map_iff in Hke. destruct Hke as [m [<- Hm]].
+    destruct (In_nth_error _ _ Hm) as [j Hj]. rewrite (xa_member_entry k q j m Hip Hj). reflexivity.
+  Qed.
+
+  Definition xa_dummy : sobj := {| so_num := 0; so_gen := 0; so_where := XFree 0 0; so_val := SpNull; so_stream := None; so_end := 0 |}.
+  Definition xa_obj (ip : xs_item * N) : sobj :=
+    match xa_G1 (xe_item_num d (fst ip), XInUse (snd ip) 0) with Some o => o | None => xa_dummy end.
+  Definition xa_xobj : sobj :=
+    match xa_G1 (xs_l_xref_id L, XInUse (xs_l_xref_off L) 0) with Some o => o | None => xa_dummy end.
+
+  Lemma xa_obj_spec : forall ip, In ip (xe_lay d) ->
+    xa_G1 (xe_item_num d (fst ip), XInUse (snd ip) 0) = Some (xa_obj ip)
+    /\ so_num (xa_obj ip) = xe_item_num d (fst ip) /\ so_gen (xa_obj ip) = 0 /\ so_where (xa_obj ip) = XInUse (snd ip) 0
+    /\ so_end (xa_obj ip) = snd ip + N.of_nat (length (xs_chunk' d (fst ip))).
+  Proof.
+    intros [it q] Hip. cbn [fst snd]. destruct (xs_item_reads_lemma d W Hel it q Hip) as [o [H1 [H2 [H3 [H4 H5]]]]].
+    fold out in H1. fold total in H1. unfold xa_obj. cbn [fst snd xa_G1]. rewrite (H1 len_of). repeat split; assumption.
+  Qed.
+
+  Lemma xa_xobj_spec : xa_G1 (xs_l_xref_id L, XInUse (xs_l_xref_off L) 0) = Some xa_xobj /\ so_num xa_xobj = xs_l_xref_id L.
+  Proof.
+    assert (Hx : In (xs_l_xref_id L, XInUse (xs_l_xref_off L) 0) XR) by (rewrite xa_XR_items; right; apply in_or_app; right; left; reflexivity).
+    destruct (xa_G1_inuse _ _ _ Hx) as [o [_ [HG [Hn _]]]]. unfold xa_xobj. rewrite HG. split; [reflexivity | exact Hn].
+  Qed.
+
+  Lemma xa_C_items : xa_C = map xa_obj (xe_lay d) ++ [xa_xobj].
+  Proof.
+    unfold xa_C. rewrite xa_XR_items. cbn [flat_map xa_G1 xa_opt app]. rewrite flat_map_app, xa_flat_flat. f_equal.
+    - assert (G : forall l, (forall ip, In ip l -> In ip (xe_lay d)) ->
+                  flat_map (fun x => flat_map (fun ke => xa_opt (xa_G1 ke)) (xa_ents x)) l = map xa_obj l).
+      { induction l as [|ip t IH]; intros Hl; [reflexivity|]. cbn [flat_map map].
+        rewrite (xa_ents_collect ip (Hl ip (or_introl eq_refl))).
+        rewrite (proj1 (xa_obj_spec ip (Hl ip (or_introl eq_refl)))). cbn [xa_opt app]. f_equal.
+        apply IH. intros x Hx. apply Hl. right. exact Hx. }
+      apply G. intros ip H. exact H.
+    - cbn [flat_map]. rewrite (proj1 xa_xobj_spec). reflexivity.
+  Qed.
+
+  (* the regions of the collected objects other than the xref stream, as read_strict lists them *)
+  Lemma xa_body_regions :
+    map region_of (filter (fun o => negb (so_num xa_xobj =? so_num o)) (rev xa_C))
+    = rev (xr_regs (xs_chunk' d) (xs_l_items L) (N.of_nat (length (xs_l_hdr L)))).
+  Proof.
+    rewrite xa_C_items, rev_app_distr. cbn [rev app filter]. rewrite N.eqb_refl. cbn [negb].
+    assert (Hlay : xr_regs (xs_chunk' d) (xs_l_items L) (N.of_nat (length (xs_l_hdr L)))
+                   = map (fun ip => (snd ip, snd ip + N.of_nat (length (xs_chunk' d (fst ip))))) (xe_lay d)).
+    { unfold L. rewrite xs_L_eq. cbn [xs_l_items xs_l_hdr]. unfold xe_lay. rewrite xe_layout_regs. reflexivity. }
+    rewrite Hlay, <- map_rev, <- map_rev.
+    assert (G : forall l, (forall ip, In ip l -> In ip (xe_lay d)) ->
+                map region_of (filter (fun o => negb (so_num xa_xobj =? so_num o)) (map xa_obj l))
+                = map (fun ip => (snd ip, snd ip + N.of_nat (length (xs_chunk' d (fst ip))))) l).
+    { induction l as [|ip t IH]; intros Hl; [reflexivity|]. cbn [map filter].
+      destruct (xa_obj_spec ip (Hl ip (or_introl eq_refl))) as [_ [Hn [_ [Hw He]]]].
+      assert (Hne : (so_num xa_xobj =? so_num (xa_obj ip)) = false).
+      { apply N.eqb_neq. rewrite (proj2 xa_xobj_spec), Hn. unfold L. rewrite xs_L_eq. cbn [xs_l_xref_id].
+        destruct (fst ip) as [x | k]; cbn [xe_item_num]; [pose proof (xs_renf_lt d x) | pose proof (xs_srenf_lt d k)]; lia. }
+      rewrite Hne. cbn [negb map]. f_equal; [unfold region_of; rewrite Hw, He; reflexivity|].
+      apply IH. intros x Hx. apply Hl. right. exact Hx. }
+    rewrite <- (G (rev (xe_lay d))) by (intros ip H; apply in_rev; exact H). rewrite map_rev. reflexivity.
+  Qed.
 End Cap.
